@@ -739,6 +739,78 @@ pub async fn run_op2(ctx: &Ctx, op: AOp, info: &Rc<TaskInfo>, handle: Handle) {
             }
         }
 
+        // C05 at API level: "an end can be claimed once" and a refused claim changes nothing. A
+        // private channel; the unclaimed end is unbound (the unbound value is Copy), claimed, and
+        // claimed a second time by the same client, which must be refused; afterwards the channel
+        // must still carry items in order and end cleanly.
+        AKind::ClaimTwiceRound => {
+            let n = 1 + (op.c % 5) as u64;
+            let base = ctx.unique() << 8;
+            let mut got: Vec<u64> = Vec::new();
+            let mut second_claim_ok = false;
+            if op.a % 2 == 0 {
+                // Sender claimed twice.
+                let Ok((us, pr)) = blocked(info, "ChannelBuilder::claim_receiver", true, handle.create_low_level_channel().claim_receiver(1 + op.b % 4)).await else { return };
+                let ub: UnboundSender = us.unbind();
+                let Ok(mut s1) = blocked(info, "UnclaimedSender::claim", true, ub.bind(handle.clone()).claim()).await else { return };
+                // (Not cancelled: a claim future dropped in flight sends a close for its cookie, like
+                // any dropped channel value - observation O5 - and would close `s1`.)
+                let second = Some(blocked(info, "UnclaimedSender::claim", true, ub.bind(handle.clone()).claim()).await);
+                match second {
+                    Some(Ok(_)) => second_claim_ok = true,
+                    Some(Err(aldrin::Error::Shutdown)) => return,
+                    _ => {}
+                }
+                let Ok(mut r) = blocked(info, "PendingReceiver::establish", true, pr.establish()).await else { return };
+                for i in 0..n {
+                    if blocked(info, "Sender::send_item", true, s1.send_item(base | i)).await.is_err() {
+                        break;
+                    }
+                    match blocked(info, "Receiver::next_item", true, r.next_item()).await {
+                        Ok(Some(v)) => got.push(v),
+                        _ => break,
+                    }
+                }
+            } else {
+                // Receiver claimed twice.
+                let Ok((ps, ur)) = blocked(info, "ChannelBuilder::claim_sender", true, handle.create_low_level_channel().claim_sender()).await else { return };
+                let ub: UnboundReceiver = ur.unbind();
+                let Ok(mut r1) = blocked(info, "UnclaimedReceiver::claim", true, ub.bind(handle.clone()).claim(1 + op.b % 4)).await else { return };
+                let second = Some(blocked(info, "UnclaimedReceiver::claim", true, ub.bind(handle.clone()).claim(2)).await);
+                match second {
+                    Some(Ok(_)) => second_claim_ok = true,
+                    Some(Err(aldrin::Error::Shutdown)) => return,
+                    _ => {}
+                }
+                let Ok(mut s) = blocked(info, "PendingSender::establish", true, ps.establish()).await else { return };
+                for i in 0..n {
+                    if blocked(info, "Sender::send_item", true, s.send_item(base | i)).await.is_err() {
+                        break;
+                    }
+                    match blocked(info, "Receiver::next_item", true, r1.next_item()).await {
+                        Ok(Some(v)) => got.push(v),
+                        _ => break,
+                    }
+                }
+            }
+            if blocked(info, "Handle::sync_broker", true, handle.sync_broker()).await.is_err() {
+                return; // the client is going away; nothing exact can be said
+            }
+            let want: Vec<u64> = (0..n).map(|i| base | i).collect();
+            ctx.probe("claim-twice-round-checked");
+            if second_claim_ok || got != want {
+                ctx.log.borrow_mut().violate(
+                    "channel.claim-twice",
+                    &[crate::model::Prop::C05, crate::model::Prop::C06],
+                    format!(
+                        "client{}: private channel ({} end claimed twice): second claim succeeded: {second_claim_ok}; items delivered {got:?}, expected {want:?}",
+                        ctx.client,
+                        if op.a % 2 == 0 { "sender" } else { "receiver" }
+                    ),
+                );
+            }
+        }
+
         // C10 at API level: a listener with a known filter, started, then a matching and a
         // non-matching object created by this very task; after a sync the listener must hold exactly
         // the matching creation (and destruction).
